@@ -43,6 +43,8 @@ def _name_value(rng):
     if rng.random() < 0.2:
         return rng.choice(BOOL_NAMES), rng.choice([True, False])
     name = rng.choice(NAMES)
+    if rng.random() < 0.12:
+        return name, "<ANY>"            # an object equal to everything: exactly the nodes that have the attribute
     if name == "kind":
         return name, rng.choice(["plain", "plain", "s", None])
     return name, rng.choice(VALUES + [None])
@@ -123,6 +125,8 @@ def generate(tier, rng):
         for sh in gen.shapes(n):
             for _ in range(4):
                 yield _case(rng, gen.labelled(sh, rng, True))
+    for sh in gen.big_shapes(rng, tier, 450):
+        yield _case(rng, gen.labelled(sh, rng, True))
     for _ in range(200 if tier == "quick" else 3000):
         n = rng.randrange(5, 13 if tier == "quick" else 31)
         yield _case(rng, gen.labelled(gen.random_shape(rng, n), rng, True))
